@@ -217,8 +217,15 @@ let catalog_json (c : catalog) =
     (jlist (List.map (fun ((n, a), b) -> jlist [jstr (hb n); jstr (hb a); jstr (hb b)]) c.c_types))
     (jlist (List.map inter_json c.c_inters))
 
+let oas_json (c : catalog) =
+  let o = to_openapi c in
+  Printf.sprintf "{\"paths\":%s,\"components\":%s}"
+    (jlist (List.map (fun it -> jlist [jstr (hb it.it_path); jlist (List.map (fun p -> jstr (hb p)) it.it_params);
+                                        jlist (List.map (fun op -> jlist [jstr (hb op.op_method); jlist (List.map (fun k -> jstr (hb k)) op.op_responses)]) it.it_ops)]) o.oa_paths))
+    (jlist (List.map (fun n -> jstr (hb n)) o.oa_components))
+
 let cat_json = function
-  | CatOk c -> Printf.sprintf "\"cat\":\"ok\",\"catalog\":%s" (catalog_json c)
+  | CatOk c -> Printf.sprintf "\"cat\":\"ok\",\"catalog\":%s,\"oas\":%s" (catalog_json c) (oas_json c)
   | CatErr e -> Printf.sprintf "\"cat\":\"err\",\"caterr\":%s" (rerr_json e)
   | CatPanic p -> Printf.sprintf "\"cat\":\"panic\",\"catpanic\":%s" (jstr (cpanic_name p))
   | CatFuel -> "\"cat\":\"fuel\""
